@@ -304,7 +304,13 @@ def run_case(case: dict[str, Any]) -> dict[str, Any]:
                     # was this release decided for an OLDER state and only carried over a write conflict (422) onto the newer one?
                     conflicted = [r for r in w.requests if r.client == inc and r.kind == 'patch' and r.name == fr.name and r.status == 422 and (g_mark or 0) < r.g < fr.g
                                   and isinstance(r.payload, list) and any(str(op.get('path', '')).startswith('/metadata/finalizers') for op in r.payload)]
-                    viol.append({'mech': 'release-carried-over-a-conflict-onto-newer-state' if conflicted else 'released-before-delete-handlers', 'msg': f"{uid}: finalizer released by request #{fr.idx} while mandatory deletion handlers {problems[-1]} had no final outcome",
+                    # ... or decided for the state its cycle had started on, while the merge-patch that precedes the removal re-anchored the
+                    # resourceVersion test to a version that already contains the foreign change (no conflict is ever seen then)
+                    dcalls = [c for c in ix.calls if c['uid'] == uid and c['inc'] == inc and c['kind'] == 'delete' and c['g'] < fr.g]
+                    view = w.body_at(uid, dcalls[-1]['rv']) if dcalls and dcalls[-1].get('rv') else None
+                    view_labels = ((view or {}).get('metadata') or {}).get('labels') or {}
+                    stale_view = view is not None and not [h for h in problems[-1] if matches(specs[h], view_labels)]
+                    viol.append({'mech': 'release-carried-over-a-conflict-onto-newer-state' if conflicted else 'release-decided-on-older-state' if stale_view else 'released-before-delete-handlers', 'msg': f"{uid}: finalizer released by request #{fr.idx} while mandatory deletion handlers {problems[-1]} had no final outcome",
                                  'witness': {'write': fr.brief()}})
             else:
                 cov['nondeleting_releases'] += 1
